@@ -12,6 +12,7 @@ import json, os
 from concurrent.futures import ThreadPoolExecutor
 from harness import common as C
 from harness.common import cbytes, cbool, clist, cnat, cpair, cN
+from harness.props import pyfun_util
 
 PID = "C01"
 KEY_TRUNC = "truncated-frame-swallows-following-bytes"
@@ -516,6 +517,11 @@ def run(ctx):
     ok2, detail2 = ctx.check_proofs(property_file="PropertyE2E.v")
     if not ok2:
         proofs_ok, detail = False, (detail if not proofs_ok else "") + "\nPropertyE2E: " + detail2
+    # the arithmetic of serialize / ingest regenerated from the source and proved equal to the model
+    # (harness/translators/pyfun.py, theories/C01/{Gen,GenEq,PropertyGen}.v, design/PYTRANS.md)
+    gen = pyfun_util.check_generated(ctx, PID)
+    if not gen["ok"]:
+        proofs_ok, detail = False, (detail if not proofs_ok else str(gen["what"])) + gen["detail"]
     ctx.log("proofs:", proofs_ok, detail.splitlines()[0][:200])
 
     # ---- real messages from the real hub and sender ---------------------------
@@ -770,7 +776,7 @@ def run(ctx):
     ctx.cov["samples"] = [{"cls": streams[i]["cls"], "stream": streams[i]["stream"].hex(), "chunking": streams[i]["chs"][-1],
                            "impl": {"out": streams[i]["res"][-1]["out"], "exc": streams[i]["res"][-1]["exc"]}}
                           for i in (ex_i, ex_t, ex_g)]
-    ctx.cov["source_ties"] = [C.source_tie("whad/device/device.py", 139, 154), C.source_tie("whad/device/device.py", 215, 275),
+    ctx.cov["source_ties"] = ctx.cov.get("source_ties", []) + [C.source_tie("whad/device/device.py", 139, 154), C.source_tie("whad/device/device.py", 215, 275),
                               C.source_tie("whad/hub/__init__.py", 156, 193)]
     ctx.cov["correspondence"] = {"frame_cases": len(frame_terms), "frame_bad": len(bad_f), "stream_cases": len(stream_terms),
                                  "stream_bad": len(bad_s), "sweep_shards": sweep_cases, "sweep_bad": len(sweep_bad),
